@@ -38,6 +38,7 @@ func runC14(c *core.Ctx, r *core.Reporter) {
 	c14sibling(c, r)
 	c14stable(c, r)
 	c14testorder(c, r)
+	c14less(c, r)
 }
 
 // reachableStrings: string constants in functions statically reachable from fn inside the module (depth-limited).
